@@ -122,7 +122,9 @@ def main():
                               "forms, schema-table reflection, canonical guard "
                               "atoms, behaviour-preserving normalisation "
                               "(inline expansion of new helpers, desugaring, "
-                              "alpha-renaming, function-rename restoration), "
+                              "alpha-renaming, function-rename restoration, "
+                              "call-form canonicalisation, folding of "
+                              "single-use temporaries, copy coalescing), "
                               "shared-state and argument-slot rules with "
                               "embedded positive controls, three-case abstract "
                               "evaluation of optional-field filters",
@@ -135,7 +137,10 @@ def main():
                  "variants: selftest/run.py (312); seeded breaking changes: "
                  "seeded/ (114, all reported); behaviour-preserving refactoring "
                  "patches: benign/ (50, all silent); tools/corpus.py re-checks "
-                 "both.",
+                 "both; tools/metamorph.py applies 24 mechanical behaviour-"
+                 "preserving transformations to every hand-written function "
+                 "(all silent, also on top of every corpus patch and every "
+                 "self-test variant).",
     }
     with open(os.path.join(VERIF, "MANIFEST.json"), "w") as fh:
         json.dump(man, fh, indent=1)
